@@ -213,14 +213,17 @@ func (g *geom) inside(p r3.Vector) bool {
 
 // farOutside reports (exactly) that p is outside the cell by more than the
 // documented ContainsPoint margin: on the wrong side of the face plane, or its
-// exact u (or v) is beyond the bound by more than 2ε(1+|u|)  (the implementation
-// expands by ε and its division has relative error ε/2).
+// exact u (or v) is beyond the bound by more than 8ε(1+|u|). The implementation
+// expands the bound by a few ε (3ε since /repo commit debd1e1, ε before) and its
+// division has relative error ε/2; 8ε leaves room so that a repair of the
+// documented guarantee CellFromPoint(p).ContainsPoint(p) does not turn this
+// (one-sided, not part of the property statement) rejection test red.
 func (g *geom) farOutside(p r3.Vector) bool {
 	pu, pv, pw := g.uvw(p)
 	if !(pw > 0) {
 		return true
 	}
-	m := hp.F(2 * eps)
+	m := hp.F(8 * eps)
 	beyond := func(lo, hi, x float64) bool {
 		slack := hp.Mul(m, hp.Abs(hp.F(x)))
 		l := hp.Sub(hp.Mul(hp.Sub(hp.F(lo), m), hp.F(pw)), slack) // (lo-2ε)·pw − 2ε|x|
